@@ -259,12 +259,18 @@ func Workers() int {
 // Map runs all cases of one kind in worker subprocesses and calls cb (serialised)
 // with every result. A worker that dies is attributed to the case it was running.
 func Map(kind string, cases []json.RawMessage, cb func(i int, c json.RawMessage, r *Result)) {
+	MapUntil(kind, cases, nil, cb)
+}
+
+// MapUntil is Map with a stop condition checked before every dispatch; it returns the number of cases
+// that were not dispatched.
+func MapUntil(kind string, cases []json.RawMessage, stop func() bool, cb func(i int, c json.RawMessage, r *Result)) (skipped int) {
 	n := Workers()
 	if n > len(cases) {
 		n = len(cases)
 	}
 	if n == 0 {
-		return
+		return 0
 	}
 	var mu sync.Mutex
 	next := 0
@@ -282,6 +288,10 @@ func Map(kind string, cases []json.RawMessage, cb func(i int, c json.RawMessage,
 			}()
 			for {
 				mu.Lock()
+				if stop != nil && next < len(cases) && stop() {
+					skipped += len(cases) - next
+					next = len(cases)
+				}
 				i := next
 				next++
 				mu.Unlock()
@@ -310,6 +320,7 @@ func Map(kind string, cases []json.RawMessage, cb func(i int, c json.RawMessage,
 		}()
 	}
 	wg.Wait()
+	return skipped
 }
 
 // RunOne runs a single case in a fresh worker subprocess.
